@@ -190,8 +190,11 @@ def tree_hash(root):
 
 def run_child(mode, workdir, spec, seed="0"):
     env = dict(os.environ, PYTHONHASHSEED=str(seed), TQDM_DISABLE="1")
-    return subprocess.run([sys.executable, "-m", "contracts.native_cfg", mode, str(workdir), json.dumps(spec)],
-                          capture_output=True, text=True, env=env, cwd=HERE)
+    try:
+        return subprocess.run([sys.executable, "-m", "contracts.native_cfg", mode, str(workdir), json.dumps(spec)],
+                              capture_output=True, text=True, env=env, cwd=HERE, timeout=900, stdin=subprocess.DEVNULL)
+    except subprocess.TimeoutExpired as e:
+        return subprocess.CompletedProcess(e.cmd, 124, stdout="", stderr="child timed out after 900 s")
 
 
 def write_files(d, spec):
@@ -264,8 +267,11 @@ def oracle_c20(tier, seed):
                     V(f"sources-differ: {diff[:6]}")
         finally:
             shutil.rmtree(tmp, ignore_errors=True)
-    return {"cases": cases, "distinct": cases, "violations": viol, "samples": [{"cases": list(SPECS)}],
-            "bound": f"{len(SPECS)} configurations (modifiers given several times, replacement+binding+yield+grain model, custom bulk prefix, allowed/extra species, separator inside a modifier) each rendered by `naunet init --render` and by the API in fresh interpreters",
+    c2, v2 = oracle_examples(tier, seed)
+    cases += c2
+    viol.extend(v2)
+    return {"cases": cases, "distinct": cases, "violations": viol, "samples": [{"cases": list(SPECS) + ["the six bundled examples through `naunet example --dry` + `naunet init`"]}],
+            "bound": f"the 6 bundled examples (module data -> option string -> project file, every field compared) and {len(SPECS)} configurations (modifiers given several times, replacement+binding+yield+grain model, custom bulk prefix, allowed/extra species, separator inside a modifier) each rendered by `naunet init --render` and by the API in fresh interpreters",
             "rule": "one case per configuration: TOML compared field by field, source trees compared byte by byte"}
 
 
@@ -316,8 +322,81 @@ def oracle_c17(tier, seed):
             "rule": "each (network, seed, prelude) rendering in a fresh interpreter is one case; sha256 of include/ src/ python/"}
 
 
+# ---------------------------------------------------------------- bundled examples: module data -> option string -> project file
+def child_examples(workdir, spec):
+    """`naunet example --select=N --dry` prints the init command; the same option string (without --render) is run through the real
+    `naunet init` and the project file is written as JSON to stdout for the parent to compare with the example module"""
+    import importlib, tomlkit
+    from cleo.application import Application
+    from cleo.testers.command_tester import CommandTester
+    from naunet.console.commands import InitCommand, ExampleCommand
+    app = Application()
+    app.add(InitCommand())
+    app.add(ExampleCommand())
+    os.chdir(workdir)
+    buf = io.StringIO()
+    with contextlib.redirect_stdout(buf), contextlib.redirect_stderr(io.StringIO()):
+        t = CommandTester(app.find("example"))
+        rc = t.execute(f"--select={spec['select']} --dry")
+    text = buf.getvalue() + t.io.fetch_output()
+    m = re.search(r"naunet init (.*)", text, flags=re.S)
+    if rc != 0 or not m:
+        raise SystemExit(f"example --dry returned {rc}: {text[-300:]}")
+    opts = re.sub(r"\s--render(-force)?\b", " ", " " + m.group(1).strip())
+    rc = quiet(CommandTester(app.find("init")).execute, opts.strip(), inputs="no\n" * 8)
+    if rc != 0:
+        raise SystemExit(f"init returned {rc}")
+    cfg = tomlkit.loads(open(os.path.join(workdir, "naunet_config.toml")).read())
+    print("CONFIG-JSON:" + json.dumps(plain(cfg)))
+
+
+def oracle_examples(tier, seed):
+    import importlib, re as _re
+    viol, cases = [], 0
+    picks = {"minimal": 5, "primordial": 8, "deuterium": 12, "cloud": 17, "ism": 20, "empty": 0}
+    for name, idx in picks.items():
+        mod = importlib.import_module(f"naunet.examples.{name}")
+        tmp = tempfile.mkdtemp(prefix="vf_ex_")
+        try:
+            p = run_child("--examples", tmp, {"select": idx})
+            cases += 1
+
+            def V(what):
+                viol.append({"property": "C20", "case": f"example-{name}", "what": what, "signature": f"C20:example-{name}:{what.split(':')[0]}"})
+            mm = _re.search(r"CONFIG-JSON:(.*)", p.stdout)
+            if p.returncode != 0 or not mm:
+                V("example-path-fails: " + ((p.stderr.strip().splitlines() or [p.stdout[-200:]])[-1][:300]))
+                continue
+            cfg = json.loads(mm.group(1))
+            chem = cfg["chemistry"]
+            want = {
+                "elements": (chem["element"]["elements"], list(mod.elements)),
+                "pseudo_elements": (chem["element"]["pseudo_elements"], list(mod.pseudo_elements)),
+                "replacement": (chem["element"]["replacement"], dict(mod.element_replacement)),
+                "allowed": (chem["species"]["allowed"], list(mod.allowed_species)),
+                "required": (chem["species"]["required"], list(mod.extra_species)),
+                "binding_energy": ({k: float(v) for k, v in chem["species"]["binding_energy"].items()}, {k: float(v) for k, v in mod.binding_energy.items()}),
+                "photon_yield": ({k: float(v) for k, v in chem["species"]["photon_yield"].items()}, {k: float(v) for k, v in mod.photon_yield.items()}),
+                "files": (chem["network"]["files"], [mod.files] if mod.files else []),
+                "formats": (chem["network"]["formats"], [mod.formats] if mod.formats else []),
+                "heating": (chem["thermal"]["heating"], list(mod.heating)),
+                "cooling": (chem["thermal"]["cooling"], list(mod.cooling)),
+                "shielding": (chem["shielding"], dict(mod.shielding)),
+                "grain_model": (chem["grain"]["model"], mod.grain_model),
+                "rate_modifier": ({str(k): str(v) for k, v in chem["rate_modifier"].items()}, {str(k): str(v) for k, v in mod.rate_modifier.items()}),
+                "ode_modifier": ({k: {"factors": [str(f).strip() for f in v["factors"]], "reactants": [list(r) for r in v["reactants"]]} for k, v in chem["ode_modifier"].items()},
+                                 {k: {"factors": [str(f).strip() for f in v["factors"]], "reactants": [list(r) for r in v["reactants"]]} for k, v in mod.ode_modifier.items()}),
+            }
+            for k, (got, exp) in want.items():
+                if got != exp:
+                    V(f"example-{k}: the example module has {str(exp)[:200]}, the project file holds {str(got)[:200]}")
+        finally:
+            shutil.rmtree(tmp, ignore_errors=True)
+    return cases, viol
+
+
 if __name__ == "__main__":
     import logging
     logging.disable(logging.CRITICAL)
     mode, wd, spec = sys.argv[1], sys.argv[2], json.loads(sys.argv[3])
-    {"--cli": child_cli, "--api": child_api, "--history": child_history}[mode](wd, spec)
+    {"--cli": child_cli, "--api": child_api, "--history": child_history, "--examples": child_examples}[mode](wd, spec)
